@@ -184,7 +184,9 @@ func (k Keeper) BaseDenomToBridgeDenom(ctx context.Context, baseDenom, target st
 			if !found {
 				continue
 			}
-			if !strings.HasPrefix(denomTrace.GetPath(), fmt.Sprintf("%s/%s", fxTarget.SourcePort, fxTarget.SourceChannel)) {
+			// the voucher's last hop must be exactly this port/channel: "transfer/channel-1" is also a string prefix of "transfer/channel-11"
+			hop := fmt.Sprintf("%s/%s", fxTarget.SourcePort, fxTarget.SourceChannel)
+			if path := denomTrace.GetPath(); path != hop && !strings.HasPrefix(path, hop+"/") {
 				continue
 			}
 			return bd, nil
